@@ -42,9 +42,9 @@ func init() {
 }
 
 func c11Main(e *Env) (*res.Result, error) {
-	n := 48
+	n := 160
 	if !e.Quick() {
-		n = 400
+		n = 1200
 	}
 	disabled := disabledTags()
 	specs := collect(e, "C11", n, func(t *rapid.T) PkgSpec {
